@@ -394,6 +394,47 @@ def check_program(ctx, w, p):
         ctx.nontrivial.add(runner.khash(["program", p["body"], p["ret"]]))
 
 
+BUILDS = [("asan", ["lpcvm"]), ("fuzz", ["fuzz_strefun"])]      # built by the parent process before the shards start
+
+# the LPC side of the coverage-guided target harness/fuzz_strefun.cpp: efuns with a little language of their own
+STREFUN_AGENT = r'''
+mixed *pool = ({ 0, 1, -1, 255, 2147483647, 1.5, 1e300, "", "abc def", "line1\nline2", ({ }), ({ 1, "a", 2.5 }), ({ "x", "yy", "zzz" }), ([ "k" : 1 ]), this_object() });
+void create() { seteuid(getuid()); }
+mixed f(int which, string a, string b, string c) {
+  mixed x, y, z;
+  int i = strlen(b), j = strlen(c);
+  return catch {
+    switch (which % 16) {
+    case 0: sprintf(a, b, c, i); break;
+    case 1: sprintf(a, pool[i % sizeof(pool)], pool[j % sizeof(pool)], pool[(i + j) % sizeof(pool)]); break;
+    case 2: sscanf(b, a, x, y, z); break;
+    case 3: regexp(({ b, c, b + c }), a); break;
+    case 4: reg_assoc(b, ({ a, c }), ({ 1, 2 }), 0); break;
+    case 5: replace_string(a, b, c); replace_string(a, b, c, 1, 2); break;
+    case 6: explode(a, b); implode(explode(a, b), c); break;
+    case 7: strsrch(a, b); strsrch(a, b, -1); member_array(b, explode(a, c)); break;
+    case 8: capitalize(a); lower_case(a); upper_case(b); break;
+    case 9: restore_variable(a); break;
+    case 10: parse_command(a, ({ this_object() }), b, x, y, z); break;
+    case 11: sprintf("%" + a + "s|%" + b + "d|%" + c + "O", b, i, pool); break;
+    case 12: sprintf(a, explode(b, " "), explode(c, ","), pool); break;
+    case 13: match_path(([ a : 1, b : 2 ]), c); break;
+    case 14: crypt(a, b); oldcrypt(a, c); break;
+    case 15: to_int(a); to_float(b); a[0..i % 8]; c[<(j % 5 + 1)..]; break;
+    }
+  };
+}
+'''
+
+
+def strefun_root(ctx, name):
+    from .. import fuzz
+    seeds = [b"\x00%s %d %O\xffabc\xffdef", b"\x01%-=20.5s|%#10O\n\xffab\xffc", b"\x02%s %d %*s\xffabc 12 x\xff", b"\x03a*b|c$\xffaab\xffc", b"\x04(a|b)*\xffabab xx\xff^x",
+             b"\x05ab\xffa\xffabab", b"\x06a,b,c\xff,\xff--", b"\x09({1,\"a\",})\xff\xff", b"\x0a get the sword\xff'get' %i\xff", b"\x0b-20.3\xff05\xff=10", b"\x0c%@s|%#-20s\xffa b c\xffx,y"]
+    toks = ["%s", "%d", "%O", "%-=", "%#", "%|", "%@", "%*", ".5", ":3", "'x'", "%[a-z]", "%(", "(a|b)", "a*", "$", "^", "\\<", "[^", "]", "({", "})", "([", "])", "%i", "%o", "%p", "%l", "%w", "'get'", "[the]", "/"]
+    return fuzz.setup(ctx.scratch(name), {"t/strefun.c": STREFUN_AGENT}, seeds, toks)
+
+
 def shard_main(ctx):
     from hypothesis import given
     n = {"quick": 900, "thorough": 60000}[ctx.tier]
@@ -417,9 +458,21 @@ def shard_main(ctx):
             runner.run_hypothesis(ctx, test_programs, {"quick": 220, "thorough": 20000}[ctx.tier])
     finally:
         close_workers(ctx)
+    # shards 4-7 (quick) / all shards (thorough): coverage-guided campaign over the string efuns that interpret one of their arguments
+    if not ctx.failures and (ctx.tier == "thorough" or 4 <= ctx.shard < 8):
+        from .. import fuzz
+        fuzz.campaign(ctx, "fuzz_strefun", "C01", strefun_root(ctx, "fuzz"), {"quick": 40000, "thorough": 3000000}[ctx.tier], max_len=512)
 
 
 def replay(ctx, case):
+    if case.get("kind") == "fuzz":
+        import os
+        from .. import fuzz
+        root = strefun_root(ctx, "fuzz-replay")
+        path = os.path.join(root, "input")
+        open(path, "wb").write(case["data"].encode("latin-1"))
+        crashed, err = fuzz.run_file("fuzz_strefun", root, path)
+        return (fuzz.signature(err, "C01"), err[-3000:]) if crashed else None
     w = get_worker(ctx)
     try:
         if "program" in case:
